@@ -88,6 +88,7 @@ struct Opts {
     int unitSystem = -1;            // -1 random, 0 METRIC, 1 FIELD, 2 LAB
     bool histWells = true;
     bool wpimult = true;            // WPIMULT is applied when its report step closes (C04 exempts it)
+    bool vfpDefaultAlq = false;     // VFPPROD item 7 defaulted in 40 % of the tables (its meaning follows LIFTOPT; opt-in: changes the random stream)
     bool actionWpimult = false;     // WPIMULT inside ACTIONX bodies (two more body templates; changes the random stream, so opt-in)
 };
 
@@ -459,7 +460,7 @@ private:
         case 27: { if (!M->hasLiftOpt) return; s << "GLIFTOPT\n " << q(anyGroup()) << " " << fmtd(1000 * (1 + rng.below(100))) << " 1* /\n/\n"; add(st, "GLIFTOPT", s.str()); return; }
         case 28: { // VFPPROD table (small)
             int id = 1 + (int)rng.below(3); M->hasVfp = true; if (std::find(M->vfpIds.begin(), M->vfpIds.end(), id) == M->vfpIds.end()) M->vfpIds.push_back(id);
-            s << "VFPPROD\n " << id << " 2000 'LIQ' 'WCT' 'GOR' 'THP' 'GRAT' '" << (M->units == "LAB" ? "LAB" : M->units) << "' 'BHP' /\n 100 500 1000 /\n 10 20 /\n 0 0.5 /\n 50 /\n 0 /\n";
+            s << "VFPPROD\n " << id << " 2000 'LIQ' 'WCT' 'GOR' 'THP' " << (opt.vfpDefaultAlq && rng.chance(0.4) ? "1*" : "'GRAT'") << " '" << (M->units == "LAB" ? "LAB" : M->units) << "' 'BHP' /\n 100 500 1000 /\n 10 20 /\n 0 0.5 /\n 50 /\n 0 /\n";
             for (int t = 1; t <= 2; ++t) for (int wf = 1; wf <= 2; ++wf) s << " " << t << " " << wf << " 1 1 " << fmtd(100 + 10 * t + rng.below(5)) << " " << fmtd(120 + 10 * t) << " " << fmtd(150 + 10 * t) << " /\n";
             add(st, "VFPPROD", s.str()); return; }
         case 29: { if (!M->hasNetwork) return; s << "BRANPROP\n"; for (auto& g : M->groups) if (g.second != "FIELD" || true) s << " " << q(g.first) << " " << q(g.second == "FIELD" ? "FIELD" : g.second) << " 9999 /\n"; s << "/\nNODEPROP\n 'FIELD' " << fmtd(20 + rng.below(10)) << " 'NO' 'NO' /\n"; for (auto& g : M->groups) s << " " << q(g.first) << " 1* 'NO' 'NO' /\n"; s << "/\n"; add(st, "BRANPROP", s.str()); return; }
